@@ -37,7 +37,9 @@ check("C10", "model_checking",
       "of up to 4 results over a value grid (zero latencies, equal/reversed timestamps, code/error/byte mixes) with Close between any two "
       "additions that the accumulators equal the reference, and that the historic Min==0 rule does not. The real Metrics is then driven with "
       "large multisets in four orders with random intermediate Close calls, through the JSON reporter and the report command; TLC validates "
-      "every Close against the reference in BigNat arithmetic.",
+      "every Close against the reference in BigNat arithmetic. ReportLoop.tla models the loop of the report command (ticks, slow input, interrupt): "
+      "TLC checks that periodic reports are growing prefixes and the last one is whole unless interrupted; runs of the real command with -every "
+      "over a named pipe fed in bursts, with and without SIGINT, are validated against it.",
       "float fields within 1e-9 abs + 1e-9 rel of the exact rational, mean latency within 1ns + 1e-12 rel; domain: timestamps 1970-2200, latency sums < 2^63",
       "TLA+ reference vs accumulator model (TLC exhaustive), TLC trace validation of real Add/Close histories", "DESIGN.md section 7 (C10)")
 check("C11", "exploration",
